@@ -20,7 +20,7 @@ def zip3 (f : F64 → F64 → F64 → F64) : List F64 → List F64 → List F64 
   | l :: lb, u :: ub, x :: xs => f l u x :: zip3 f lb ub xs
   | _, _, _ => []
 
-/-- sites 102 (COBYLA), 103 (BOBYQA), 104 (NEWUOA with bounds), 107 (rescaled DIRECT, cdirect_uf): delivered point = clamp of the proposal -/
+/-- sites 102 (COBYLA), 103 (BOBYQA), 104 (NEWUOA with bounds), 107 (rescaled DIRECT, cdirect_uf), 108 (original DIRECT, f_direct): delivered point = clamp of the proposal -/
 def clampSite (lb ub x : List F64) : List F64 := zip3 clampElse lb ub x
 
 /-- NEWUOA without bounds (`lb == NULL`): the proposal is delivered as is -/
